@@ -72,23 +72,29 @@ def run(chk: Check, replay=None):
             if n >= 20 and rng.random() < 0.8:
                 blob = blob[:12] + bytes([rng.randrange(3)]) + bytes(7) + blob[20:]
         blobs.append(blob)
+    nsmall = len(blobs)
+    blobs += fmt.big_blobs()          # (name, bytes): judged on totality only (too large for TLC, and not needed: see below)
     recs = par.pmap(fmt._read_case, list(enumerate(blobs)), so_path=so, procs=16, chunksize=16)
-    verdicts = fmt.validate(chk, recs, "Trace_FJMFormat[read]")
+    verdicts = fmt.validate(chk, recs[:nsmall], "Trace_FJMFormat[read]")
     chk.traces += len(recs)
     chk.extra["B_byte_strings"] = len(recs)
     chk.extra["B_outcomes"] = {o: sum(1 for r in recs if r["outcome"] == o) for o in sorted({r["outcome"] for r in recs})}
     chk.sample({"kind": "byte string", "bytes": recs[0]["bytes"][:64], "outcome": recs[0]["outcome"]})
     for i, rec in enumerate(recs):
-        v = verdicts.get(i)
+        v = verdicts.get(i) if i < nsmall else {"fail": []}
         if v is None:
             raise MachineryFailure(f"no verdict for record {i}")
         oc = rec["outcome"]
+        what = rec["big"] or "string"
         if oc not in ("image", "rerr"):
             chk.violation({"route": "read", "clauses": "not-total", "outcome": oc.split(":")[0]},
-                          f"Reader on a {len(rec['bytes'])}-byte string: outcome {oc} (neither an image nor the read error)", {"bytes": rec["bytes"], "outcome": oc})
-        elif rec["peak"] > (64 << 20) + 200 * len(rec["bytes"]):
+                          f"Reader on a {rec['size']}-byte {what}: outcome {oc} (neither an image nor the read error)",
+                          {"bytes": rec["bytes"], "outcome": oc, "recipe": rec["big"]})
+        elif rec["peak"] > (64 << 20) + 200 * rec["size"]:
             chk.violation({"route": "read", "clauses": "allocation"},
-                          f"Reader allocated {rec['peak']} bytes for a {len(rec['bytes'])}-byte file", {"bytes": rec["bytes"], "peak": rec["peak"]})
+                          f"Reader allocated {rec['peak']} bytes for a {rec['size']}-byte {what}", {"bytes": rec["bytes"], "peak": rec["peak"], "recipe": rec["big"]})
+        elif rec["trailing"]:
+            continue            # bytes after the end of the compressed stream: accepting and rejecting are both fine
         elif v["fail"]:
             chk.violation({"route": "read", "clauses": "outcome", "real": oc},
                           f"Reader outcome {oc} on a {len(rec['bytes'])}-byte string, but FJMFormat!Decode says ok={v['spec']['ok']}", {"bytes": rec["bytes"], "outcome": oc, "verdict": v})
